@@ -12,7 +12,7 @@ BLV = 2      # the bitlength the conformance runs use
 def gen(run, P, BL, maxw, maxlen, vals, wide=False):
     with common.scratch("trc_") as d:
         cf = os.path.join(d, "gen.cfg")
-        open(cf, "w").write("SPECIFICATION Spec\nCONSTANT P = %d\nCONSTANT BL = %d\nCONSTANT MaxW = %d\nCONSTANT MaxLen = %d\nCONSTANT Vals <- %s\nCONSTANT Wide = %s\n"
+        open(cf, "w").write("SPECIFICATION Spec\nCONSTANT P = %d\nCONSTANT BL = %d\nCONSTANT MaxW = %d\nCONSTANT MaxLen = %d\nCONSTANT Vals <- %s\nCONSTANT Wide = %s\nCONSTANT RES = 1\n"
                             "INVARIANT Inv_Sat\nINVARIANT Inv_ValLC\nINVARIANT Inv_Bool\nINVARIANT EmitBeh\nCHECK_DEADLOCK FALSE\n" % (P, BL, maxw, maxlen, vals, "TRUE" if wide else "FALSE"))
         res = tlc.run("Tracer", cfg=cf, workers=12, heap="6g")
     run.add_tlc(res, "Tracer.tla: Sat / value==wire / booleans on the mechanism model, MaxLen=%d%s" % (maxlen, ", full operator set" if wide else ""))
@@ -35,6 +35,12 @@ def to_program(pid, beh):
         cur = stack if stack is not None else top
         if a == "priv":
             cur.append({"op": "new", "kind": "priv", "ty": "int", "v": h["v"]}); objreg.append(reg); reg += 1
+        elif a == "privfxp":
+            cur.append({"op": "new", "kind": "priv", "ty": "fxp", "v": {"f": [h["v"], 2]}}); objreg.append(reg); reg += 1      # resolution 1: v / 2 has the representation v
+        elif a in ("fadd", "fsub", "fmul", "ftruediv", "ffloordiv", "flt"):
+            cur.append({"op": "bin", "name": a[1:], "a": {"r": objreg[h["i"] - 1]}, "b": {"r": objreg[h["j"] - 1]}}); objreg.append(reg); reg += 1
+        elif a in ("faddc", "fmulc"):
+            cur.append({"op": "bin", "name": a[1:4], "a": {"r": objreg[h["i"] - 1]}, "b": {"c": h["v"]}}); objreg.append(reg); reg += 1
         elif a == "privbool":
             cur.append({"op": "new", "kind": "priv", "ty": "bool", "v": h["v"]}); objreg.append(reg); reg += 1
         elif a == "truediv":
